@@ -26,6 +26,12 @@ Open Scope Q_scope.
 Definition mat := list (list Q).
 Definition omat := list (list oQ).
 
+(* Sums and dot products with every intermediate fraction kept in lowest terms (Qred x == x): the same
+   values as Num.qsum / Num.dot (Proofs/Ensemble.v: rsum_qsum, rdot_dot), but vm_compute stays fast on
+   weights such as 1/3 whose float value has a 53-bit denominator. *)
+Definition rsum (l : list Q) : Q := fold_right (fun x a => Qred (x + a)) 0 l.
+Definition rdot (a b : list Q) : Q := rsum (map (fun ab : Q * Q => Qred (fst ab * snd ab)) (combine a b)).
+
 (* ------------------------------------------------------------------------------------------------ *)
 (* _propagate_nan_values : a NaN in any objective or constraint column fails the whole row           *)
 Definition has_nan (r : list oQ) : bool := existsb is_none r.
@@ -64,7 +70,7 @@ Definition zero_failed (failed : list bool) (w : list Q) : list Q :=
   map (fun fw : bool * Q => if fst fw then 0 else snd fw) (combine failed w).
 (* the division by a zero sum is an explicit error, not a value *)
 Definition normalize (w : list Q) : option (list Q) :=
-  let s := qsum w in if Qeqb s 0 then None else Some (map (fun x => x / s) w).
+  let s := rsum w in if Qeqb s 0 then None else Some (map (fun x => Qred (x / s)) w).
 
 Definition count_nonzero (w : list Q) : nat := length (filter (fun x => negb (Qeqb x 0)) w).
 Definition count_pos (w : list Q) : nat := length (filter (fun x => Qltb 0 x) w).
@@ -82,12 +88,12 @@ Definition sq (x : Q) : Q := x * x.
 Definition nat_Q (n : nat) : Q := inject_Z (Z.of_nat n).
 
 (* DefaultFunctionEstimator._calculate_function_mean *)
-Definition est_mean (f : list oQ) (w : list Q) : Q := dot (nan_to_num f) w.
+Definition est_mean (f : list oQ) (w : list Q) : Q := rdot (nan_to_num f) w.
 (* _mean_stddev: norm = N/(N-1), N = count(w > 0); variance = norm * sum w (f - mean)^2 *)
 Definition var_of (fs w : list Q) : Q :=
   let n := nat_Q (count_pos w) in
-  let m := dot fs w in
-  (n / (n - 1)) * dot (map (fun x => sq (x - m)) fs) w.
+  let m := rdot fs w in
+  (n / (n - 1)) * rdot (map (fun x => Qred (sq (x - m))) fs) w.
 (* _calculate_function_stddev *)
 Definition est_var (f : list oQ) (w : list Q) : fres :=
   if (count_nonzero w <? min_stddev_realizations)%nat then FAbort
@@ -121,7 +127,7 @@ Definition estimate_all (ests : list ekind) (emap : list nat) (cfgw : list Q) (w
            (rows : omat) (failed : list bool) : list fres :=
   map (estimate_fn ests emap cfgw wmat rows failed) (seq 0 (length emap)).
 
-Definition weighted_objective (ow objs : list Q) : Q := dot ow objs.
+Definition weighted_objective (ow objs : list Q) : Q := rdot ow objs.
 
 (* ------------------------------------------------------------------------------------------------ *)
 (* _calculate_filtered_realization_weights.  The weight vector returned by filter k for this
@@ -264,7 +270,7 @@ Definition vec := list Q.
 Definition vzero (n : nat) : vec := repeat 0 n.
 Fixpoint vadd (a b : vec) : vec :=
   match a, b with x :: a', y :: b' => (x + y) :: vadd a' b' | _, _ => [] end.
-Definition vscale (c : Q) (a : vec) : vec := map (fun x => c * x) a.
+Definition vscale (c : Q) (a : vec) : vec := map (fun x => Qred (c * x)) a.
 Fixpoint vsub (a b : vec) : vec :=
   match a, b with x :: a', y :: b' => (x - y) :: vsub a' b' | _, _ => [] end.
 Definition osub (a b : oQ) : oQ := match a, b with Some x, Some y => Some (x - y) | _, _ => None end.
@@ -285,13 +291,18 @@ Inductive gres :=
 | GAbort | GDivZero.
 
 Section Gradient.
-  Variable solve : list vec -> list Q -> vec.
-  Variable nv : nat.    (* number of (free) variables *)
+  Variable solve : list vec -> list Q -> vec.   (* _invert_linear_equations *)
+  Variable nv : nat.                            (* number of (free) variables *)
 
-  (* _estimate_gradients, one realization: x the unperturbed variables, fx the function value,
-     pX / pf the perturbed variables and values, w the normalised weight *)
+  (* the least-squares system of one realization: x the unperturbed variables, fx its function value,
+     pX / pf the perturbed variables and their function values *)
+  Definition realization_system (x : vec) (fx : oQ) (pX : list vec) (pf : list oQ) : list vec * list Q :=
+    drop_failed_rows (map (fun p => vsub p x) pX) (map (fun v => osub v fx) pf).
+
+  (* _estimate_gradients, one realization; w its normalised weight:
+     solved only if active (|w| > 0) and np.any(success), zeros otherwise *)
   Definition realization_gradient (x : vec) (fx : oQ) (pX : list vec) (pf : list oQ) (w : Q) : vec :=
-    let sys := drop_failed_rows (map (fun p => vsub p x) pX) (map (fun v => osub v fx) pf) in
+    let sys := realization_system x fx pX pf in
     if negb (Qeqb w 0) && negb (match snd sys with [] => true | _ => false end)
     then solve (fst sys) (snd sys) else vzero nv.
 
@@ -310,27 +321,29 @@ Section Gradient.
     | _, _ => vzero nv
     end.
 
-  (* _calculate_gradient + DefaultFunctionEstimator.calculate_gradient (merge_realizations = False) *)
+  (* DefaultFunctionEstimator.calculate_gradient (merge_realizations = False); w normalised *)
+  Definition combine_gradients (k : ekind) (fs : list oQ) (gs : list vec) (w : list Q) : gres :=
+    match k with
+    | Mean => GMean (vcomb w gs)
+    | Stddev =>
+        if (count_nonzero w <? min_stddev_realizations)%nat then GAbort
+        else if (count_pos w <=? 1)%nat then GDivZero
+        else
+          let f := nan_to_num fs in
+          let n := nat_Q (count_pos w) in
+          let m := rdot f w in
+          GSd (var_of f w)
+              (vscale (n / (n - 1))
+                      (vsub (vcomb (map (fun fw : Q * Q => Qred (fst fw * snd fw)) (combine f w)) gs)
+                            (vscale m (vcomb w gs))))
+    end.
+
+  (* _calculate_gradient: np.where(failed, 0, w); w /= w.sum(); estimate; combine *)
   Definition gradient_of (k : ekind) (x : vec) (fs : list oQ) (pXs : list (list vec)) (pfs : list (list oQ))
              (wrow : list Q) (failed : list bool) : gres :=
     match normalize (zero_failed failed wrow) with
     | None => GDivZero
-    | Some w =>
-        let gs := realization_gradients x fs pXs pfs w in
-        match k with
-        | Mean => GMean (vcomb w gs)
-        | Stddev =>
-            if (count_nonzero w <? min_stddev_realizations)%nat then GAbort
-            else if (count_pos w <=? 1)%nat then GDivZero
-            else
-              let f := nan_to_num fs in
-              let n := nat_Q (count_pos w) in
-              let m := dot f w in
-              GSd (var_of f w)
-                  (vscale (n / (n - 1))
-                          (vsub (vcomb (map (fun fw : Q * Q => fst fw * snd fw) (combine f w)) gs)
-                                (vscale m (vcomb w gs))))
-        end
+    | Some w => combine_gradients k fs (realization_gradients x fs pXs pfs w) w
     end.
 End Gradient.
 
